@@ -171,10 +171,6 @@ theorem modName_nodup (l : List Nat) (h : l.Nodup) : (l.map modName).Nodup :=
 
 /-! ### grid names -/
 
-/-- index pairs of a `rows × columns` grid in generation order. -/
-def gridIdx (rows columns : Nat) : List (Nat × Nat) :=
-  (List.range rows).flatMap fun r => (List.range columns).map fun c => (r, c)
-
 theorem gridNames_eq (rows columns : Nat) :
     gridNames rows columns = (gridIdx rows columns).map fun p => modName2 p.1 p.2 := by
   simp [gridNames, gridIdx, List.map_flatMap, Function.comp_def]
@@ -1395,4 +1391,137 @@ theorem sol_parseNetlist (stog : List (NRect α) → List (NRect α)) (εA : α)
 
 end reader
 
+/-! ### netgen `--add-centers` -/
+
+section centres
+variable {α : Type} [Field α] [LinearOrder α] [IsStrictOrderedRing α]
+
+/-- `{area: a, center: c}` -/
+def modInfoC (area : Num α) (c : YVal α) : YVal α := .map [(.str "area", YVal.ofNum area), (.str "center", c)]
+
+theorem setCentre_map (l0 : List (Nat × Nat)) (g : Nat × Nat → YVal α) (rc0 : Nat × Nat) (c : YVal α) :
+    setCentre (l0.map fun rc => (modName2 rc.1 rc.2, g rc)) (modName2 rc0.1 rc0.2) c
+      = l0.map fun rc => (modName2 rc.1 rc.2,
+          if rc = rc0 then addCentre c (g rc) else g rc) := by
+  simp only [setCentre, List.map_map, Function.comp_def]
+  apply List.map_congr_left
+  intro rc _
+  by_cases h : rc = rc0
+  · subst h; simp
+  · have : ¬ modName2 rc.1 rc.2 = modName2 rc0.1 rc0.2 := fun e => h (Prod.ext (modName2_inj e).1 (modName2_inj e).2)
+    simp [h, this]
+
+/-- the centre loop over distinct positions turns every visited `{area}` entry into `{area, center}`. -/
+theorem centre_loop (area : Num α) (ctr : Nat × Nat → YVal α) (l0 : List (Nat × Nat)) :
+    ∀ (l done : List (Nat × Nat)), (done ++ l).Nodup →
+      l.foldl (fun d rc => setCentre d (modName2 rc.1 rc.2) (ctr rc))
+        (l0.map fun rc => (modName2 rc.1 rc.2, if rc ∈ done then modInfoC area (ctr rc) else modInfo area))
+      = l0.map fun rc => (modName2 rc.1 rc.2, if rc ∈ done ++ l then modInfoC area (ctr rc) else modInfo area)
+  | [], done, _ => by simp
+  | rc0 :: l, done, hnd => by
+    rw [List.foldl_cons, setCentre_map]
+    have hnd' : ((done ++ [rc0]) ++ l).Nodup := by simpa [List.append_assoc] using hnd
+    have h0 : rc0 ∉ done := by
+      have := List.nodup_append.mp hnd
+      intro hm; exact this.2.2 rc0 hm rc0 (by simp) rfl
+    have := centre_loop area ctr l0 l (done ++ [rc0]) hnd'
+    rw [List.append_assoc, List.singleton_append] at this
+    rw [← this]
+    congr 1
+    apply List.map_congr_left
+    intro rc _
+    by_cases h : rc = rc0
+    · subst h
+      simp [h0, modInfo, modInfoC, addCentre, yInsert, YVal.str?]
+    · simp [h]
+
+theorem genModulesCentred_eq (area : Num α) (rows columns : Nat) (W H : α) (noise : List α) :
+    genModulesCentred area rows columns W H noise
+      = (gridIdx rows columns).map fun rc =>
+          (modName2 rc.1 rc.2, modInfoC area (gridCentreY rows columns W H noise rc)) := by
+  have hnames : ((gridIdx rows columns).map fun rc => (modName2 rc.1 rc.2, modInfo area)).map (·.1)
+      = gridNames rows columns := by
+    rw [gridNames_eq]; simp [Function.comp_def]
+  unfold genModulesCentred
+  rw [dictOfList_of_nodup _ (by rw [hnames]; exact gridNames_nodup rows columns)]
+  have := centre_loop area (gridCentreY rows columns W H noise) (gridIdx rows columns) (gridIdx rows columns) []
+    (by simpa using gridIdx_nodup rows columns)
+  simp only [List.not_mem_nil, if_false, List.nil_append] at this
+  rw [this]
+  apply List.map_congr_left
+  intro rc h
+  simp [h]
+
+
+/-- the reader on a document of soft modules without rectangles (any per-module info the reader turns into such a
+    module) and name-only / weighted nets. -/
+theorem parseNetlist_softgen (stog : List (NRect α) → List (NRect α)) (εA : α) {ι : Type} (idx : List ι)
+    (name : ι → String) (info : ι → YVal α) (md : ι → NL.Mod α) (nets : List (GEdge α))
+    (hp : ∀ i ∈ idx, parseModule (α := α) (.str (name i), info i) = .ok (md i))
+    (hmd : ∀ i ∈ idx, (md i).name = name i ∧ (md i).rects = [] ∧ (md i).flip = false ∧ (md i).hard = false)
+    (hnd : (idx.map name).Nodup)
+    (hnets : ∀ e ∈ nets, 2 ≤ e.members.length ∧ (∀ m ∈ e.members, m ∈ idx.map name) ∧
+      (∀ w, e.weight = some w → (0 : α) < w.val)) :
+    parseNetlist stog εA (GenOut.toY { modules := idx.map fun i => (name i, info i), nets := nets })
+      = .ok { modules := idx.map md, nets := nets.map GEdge.toNet } := by
+  have hmods : mapE (parseModule (α := α)) (idx.map fun i => (YVal.str (name i), info i)) = .ok (idx.map md) :=
+    mapE_map_ok _ _ _ _ hp
+  have hnames : (idx.map md).map (·.name) = idx.map name := by
+    rw [List.map_map]; apply List.map_congr_left; intro i hi; exact (hmd i hi).1
+  have hedges : mapE (parseEdge (α := α)) (nets.map GEdge.toY) = .ok (nets.map GEdge.toNet) :=
+    mapE_map_ok _ _ _ _ (fun e he => parseEdge_gedge e (hnets e he).1)
+  have hmap : (idx.map fun i => (name i, info i)).map (fun kv => (YVal.str (α := α) kv.1, kv.2))
+      = idx.map fun i => (YVal.str (name i), info i) := by simp [Function.comp_def]
+  have hdoc := parseDoc_two (α := α) (.map (idx.map fun i => (YVal.str (name i), info i))) (.seq (nets.map GEdge.toY))
+    _ (nets.map GEdge.toNet) (parseModules_of _ _ hmods (by rw [hnames]; exact hnd)) (by simp [parseEdges, hedges])
+  have hfin := finish_norects stog εA (idx.map md) (nets.map GEdge.toNet)
+    (by
+      intro m hm
+      obtain ⟨i, hi, rfl⟩ := List.mem_map.mp hm
+      obtain ⟨_, h2, h3, h4⟩ := hmd i hi
+      exact ⟨h2, h3, fun hh => by rw [h4] at hh; exact absurd hh (by simp)⟩)
+    (by
+      intro x hx
+      obtain ⟨e, he, rfl⟩ := List.mem_map.mp hx
+      have h := hnets e he
+      rw [hnames]
+      refine ⟨h.2.1, ?_⟩
+      unfold GEdge.toNet
+      cases hwt : e.weight with
+      | none => simp
+      | some w => simpa using h.2.2 w hwt)
+  simp only [parseNetlist, GenOut.toY, Dict.toY, hmap, hdoc, hfin]
+
+theorem parseModule_areaNum_center (name : String) (a : Num α) (c : α × α) (hn : validIdent name = true)
+    (ha : 0 < a.val) :
+    parseModule (α := α) (.str name, modInfoC a (.seq [.float c.1, .float c.2])) = .ok (softModC name c a.val) := by
+  have hc : parseCenter (α := α) (.seq [.float c.1, .float c.2]) = .ok c := by
+    simp [parseCenter, YVal.num?, Num.val]
+  simp [modInfoC, softModC, parseModule, YVal.str?, hn, mapE, classify, attrKind, nodupB, mkParam, Param.kind,
+    hc, ctor, foldlE, ctorStep, readRegionArea, assoc, setup, ha]
+
+/-- the centre of grid position `(r, c)` as a pair. -/
+def gridCentre (rows columns : Nat) (W H : α) (noise : List α) (rc : Nat × Nat) : α × α :=
+  (gridCentreCoord rc.2 W columns (noise.getD (2 * (rc.1 * columns + rc.2)) ((0 : Nat) : α)),
+   gridCentreCoord rc.1 H rows (noise.getD (2 * (rc.1 * columns + rc.2) + 1) ((0 : Nat) : α)))
+
+/-- without noise the coordinate is the middle of slot `k` of `count` equal slots of `[0, extent]`. -/
+theorem gridCentreCoord_mid (k count : Nat) (extent : α) (hk : k < count) (he : 0 < extent) :
+    gridCentreCoord k extent count ((0 : Nat) : α) = ((k : α) + 1 / 2) * extent / (count : α) ∧
+    (k : α) * extent / (count : α) < gridCentreCoord k extent count ((0 : Nat) : α) ∧
+    gridCentreCoord k extent count ((0 : Nat) : α) < ((k : α) + 1) * extent / (count : α) ∧
+    0 < gridCentreCoord k extent count ((0 : Nat) : α) ∧ gridCentreCoord k extent count ((0 : Nat) : α) < extent := by
+  have hc : (0 : α) < (count : α) := by exact_mod_cast (Nat.lt_of_le_of_lt (Nat.zero_le k) hk)
+  have hkc : (k : α) + 1 ≤ (count : α) := by exact_mod_cast hk
+  have hk0 : (0 : α) ≤ (k : α) := by exact_mod_cast Nat.zero_le k
+  have e : gridCentreCoord k extent count ((0 : Nat) : α) = ((k : α) + 1 / 2) * extent / (count : α) := by
+    simp only [gridCentreCoord, Nat.cast_zero, Nat.cast_one, Nat.cast_ofNat, add_zero]; ring
+  have hq : 0 < extent / (count : α) := div_pos he hc
+  refine ⟨e, ?_, ?_, ?_, ?_⟩
+  · rw [e, div_lt_div_iff_of_pos_right hc]; nlinarith
+  · rw [e, div_lt_div_iff_of_pos_right hc]; nlinarith
+  · rw [e]; positivity
+  · rw [e, div_lt_iff₀ hc]; nlinarith
+
+end centres
 end FV.Prod
